@@ -1,7 +1,7 @@
 #!/bin/bash
 # tools/run_all.sh [tier] [seed] — runs every registered check, prints one line per check
 TIER="${1:-quick}"; SEED="${2:-20260923}"
-cd /verif
+cd "$(dirname "$(dirname "$(realpath "$0")")")"
 for i in $(seq -w 1 20); do
   ID=C$i
   START=$(date +%s)
